@@ -69,7 +69,9 @@ class Built:
 
     def probe(self):
         import pandera.config as cfg
-        c = cfg._CONTEXT_CONFIG
+        # public accessor (works whatever the storage of the context config
+        # is); evaluated in the calling thread = that thread's view
+        c = cfg.get_config_context(validation_depth_default=None)
         d = {"cfg.validation_depth": getattr(c.validation_depth, "name", None),
              "cfg.validation_enabled": c.validation_enabled,
              "cfg.cache_dataframe": c.cache_dataframe,
